@@ -263,7 +263,9 @@ def gen_op(rng, w, weights):
     if k == 'clean':
         return {'op': k, 'h': 0, 'vacuum': rng.random() < .3}
     if k == 'repack':
-        return {'op': k, 'h': 0, 'mode': rng.randrange(4)}
+        # the whole container, or one pack through the public repack_pack(); sometimes followed by closing the handle
+        return {'op': k, 'h': 0, 'mode': rng.randrange(4), 'single_pack': rng.random() < .4, 'pick': rng.random(),
+                'then_close': rng.random() < .5}
     if k == 'delete':
         return {'op': k, 'h': 0, 'present': rng.randrange(0, 4), 'absent': rng.randrange(0, 2), 'r': rng.random()}
     if k == 'loosen':
@@ -355,12 +357,21 @@ def apply_op(w, op, props):
     elif k == 'repack':
         mode = MODES[op['mode']]
         idx0 = {r[0]: r for r in raw_index(w.folder)}
-        c.repack(compress_mode=mode)
+        packs0 = sorted({r[5] for r in idx0.values()})
+        if op.get('single_pack') and packs0:
+            pid = packs0[int(op['pick'] * len(packs0)) % len(packs0)]
+            c.repack_pack(str(pid), compress_mode=mode)
+            touched = {hk: r for hk, r in idx0.items() if r[5] == pid}
+            if op.get('then_close'):
+                c.close()          # the operation must be complete (committed) when it returns
+        else:
+            c.repack(compress_mode=mode)
+            touched = idx0
         repacked = True
-        for hk, r in idx0.items():
+        for hk, r in touched.items():
             w.expect_comp[hk] = {CompressMode.YES: True, CompressMode.NO: False, CompressMode.KEEP: bool(r[1]),
                                  CompressMode.AUTO: None}[mode]
-        if 'C11' in props or 'C10' in props:
+        if ('C11' in props or 'C10' in props) and not op.get('single_pack'):
             oracle_repacked_layout(w)
     elif k == 'delete':
         r = random.Random(op['r'])
